@@ -44,6 +44,12 @@ class C04(Prop):
     search_budget = {"quick": 800, "thorough": 6000}
 
     def gen(self, rng, i, tier):
+        c = self._gen(rng, i, tier)
+        if i % 6 == 3 and c["jds"] and c["jds"][0]:
+            c["jds_type"] = "numpy"        # the joint degree sequence is an (N, T) integer array; vertex annotations are its rows
+        return c
+
+    def _gen(self, rng, i, tier):
         if rng.random() < 0.7:
             case = gc.gen_fast_case(rng, small=rng.random() < 0.5)
             obs = gc.run_generator(case, "direct")
@@ -89,10 +95,15 @@ class C04(Prop):
         el.topologies = [dec(t) for t in case["topologies"]]
         el.motif_id = list(case["motif_id"])
         el.joint_degrees = [tuple(r) for r in case["jds"]]
+        if case.get("jds_type") == "numpy":
+            import numpy as np
+            el.joint_degrees = np.array(case["jds"], dtype=np.int64)
         net = EdgeListToNetwork.convert(el)
         obs = {"net": self._observe_net(net.G)}
         obs["input_untouched"] = (el.edge_list == [tuple(e) for e in case["edges"]] and el.topologies == [dec(t) for t in case["topologies"]]
-                                  and el.motif_id == case["motif_id"] and el.joint_degrees == [tuple(r) for r in case["jds"]])
+                                  and el.motif_id == case["motif_id"]
+                                  and [[int(x) for x in r] for r in el.joint_degrees] == [list(r) for r in case["jds"]]
+                                  and (case.get("jds_type") == "numpy" or all(isinstance(r, tuple) for r in el.joint_degrees)))
         try:
             back = NetworkToEdgeList.convert(net)
             obs["back"] = {"edges": [list(e) for e in back.edge_list], "topologies": [enc(t) for t in back.topologies],
